@@ -46,7 +46,7 @@ DATETIMES_EXT = [_dt(DATES_EXT[0]), _dt(DATES_EXT[1], 23, 59, 59, 999999)]
 
 KINDS_BASIC = ["bool", "int", "float", "str", "date", "datetime"]
 KINDS_KEY = ["bool", "int", "float", "str", "lstr", "ustr", "date", "datetime", "obool"]
-NA_CAPABLE = {"float", "str", "lstr", "ustr", "date", "datetime", "obool", "obj", "ostr", "timedelta", "float32", "oint"}
+NA_CAPABLE = {"onum", "omix", "float", "str", "lstr", "ustr", "date", "datetime", "obool", "obj", "ostr", "timedelta", "float32", "oint"}
 NA_PATTERNS = ["none", "none", "some", "some", "first", "last", "all"]
 
 def pool(rng, kind, hostile=0.25, tags=None):
@@ -113,6 +113,10 @@ def pool(rng, kind, hostile=0.25, tags=None):
         return [True, False]
     if kind == "oint":
         return [2, 10, 100, 9, -5, 0, 33]        # object column of ints: value order differs from the order of str(value)
+    if kind == "onum":
+        return [1, 1.0, 2, 2.5, 2.0, -3, 0, 0.0]      # object column of numbers: equal values that print differently
+    if kind == "omix":
+        return [1, "1", 2.5, "2.5", "None", "a", 2, "nan"]      # object column of mixed types: different values that print alike
     if kind == "timedelta":
         return [datetime.timedelta(0), datetime.timedelta(days=1), datetime.timedelta(seconds=-5), datetime.timedelta(days=400, microseconds=7)]
     if kind == "bytes":
@@ -193,7 +197,7 @@ def np_column(kind, values):
         return np.array(values, dtype="S3") if n else np.array([], dtype="S1")
     if kind == "complex":
         return np.array(values, dtype=np.complex128)
-    if kind in ("obool", "obj", "ostr", "oint"):
+    if kind in ("obool", "obj", "ostr", "oint", "onum", "omix"):
         a = np.empty(n, dtype=object)
         for i, v in enumerate(values):
             a[i] = v
